@@ -190,6 +190,25 @@ def model_fn(case):
                             'per-source-restricted', 'per-source/%s' % tag, source=n_, got=restr_, want=full_[idx])
                 else:
                     r.check(False, 'per-source-restricted', 'per-source/shape/' + tag, source=n_, got=restr_.shape)
+            # ... and with the two models changing roles: the one that has only ever worked on the restricted grid is
+            # asked for the full grid, the one that has only worked on the full grid for the restricted one (nothing
+            # sized for the previous request may be left in a source)
+            try:
+                _, fdf2 = m2.model_full_contrib()
+                _, fdr2 = m.model_full_contrib(wngrid=req_passed, cutoff_grid=case['cutoff'])
+            except Exception as e:
+                fdf2 = None
+                r.check(False, 'no-exception', 'exception/%s/per-source-switched/%s' % (type(e).__name__, tag), exc=repr(e))
+            if fdf2 is not None:
+                for n_ in fdf:
+                    for (a, b, what) in [(x_, y_, 'full-after-restricted') for x_, y_ in zip(fdf[n_], fdf2.get(n_, []))] + \
+                                        [(x_, y_, 'restricted-after-full') for x_, y_ in zip(fdr.get(n_, []), fdr2.get(n_, []))]:
+                        av, bv = np.asarray(a[1], float), np.asarray(b[1], float)
+                        r.check(av.shape == bv.shape and bool(np.all(np.abs(av - bv) <= emission_lic + 1e-9 * np.abs(av)))
+                                if np.ndim(emission_lic) == 0 or av.shape == np.shape(emission_lic)
+                                else av.shape == bv.shape and core.close(av, bv, 1e-9, float(np.max(emission_lic))),
+                                'per-source-restricted', 'per-source-switched/%s/%s' % (what, tag), source='%s/%s' % (n_, a[0]),
+                                got=bv, want=av)
     # binned to the observation (widths implied by the mid-points => the stated condition holds)
     if len(req) >= 2:
         w = compute_bin_edges(req)[-1]
